@@ -96,7 +96,15 @@ func ConstructMessageFromUnits(
 
 	merkleRoot, merkleTree := merkle.New(shards)
 
-	messageRoot := units[0].MessageRoot
+	// Any unit may be the missing one, including the first: read the signed root from the
+	// first unit that is present (the recovery above guarantees there is one).
+	var messageRoot MessageRoot
+	for _, unit := range units {
+		if unit != nil {
+			messageRoot = unit.MessageRoot
+			break
+		}
+	}
 	expectedRoot := MessageRoot(merkleRoot)
 	if messageRoot != expectedRoot {
 		// todo(rdr): probably need to write string methods for the MessageRoot type
